@@ -64,3 +64,6 @@ fn c13_color_error_clamp() {
     assert!(ColorError::between(c, d).add(d) == c);
     kani::cover!(e[0] > 300.0 && e[1] < -300.0);
 }
+
+// (KDTree::new on a 2-colour palette + find: std's sort_by_key does not finish in CBMC (300 s) and Kani 0.68 refuses to
+//  stub the generic `<[T]>::sort_by_key`; construction stays an assumption of the C13 claim)
